@@ -245,6 +245,34 @@ pub fn run(rep: &Report) {
     let t = rep.thorough();
     run_forms(rep, if t { 400 } else { 6 }, false, rep.seed ^ 0x40);
     run_source(rep, if t { 300 } else { 6 }, false, rep.seed ^ 0x42);
+    // every access kind (LEA excepted: it touches no memory) with the operand aimed at the last bytes of memory
+    crate::insplane::edge_plane(rep, if t { 600_000 } else { 12_000 }, rep.seed ^ 0xE4, false, "C04 operand resolution at the end of memory", "ea", &|rng| {
+        let k = rng.below(KINDS.len() - 1);
+        if rng.chance(1, 6) {
+            // exchanges resolve their memory operand like any other instruction
+            let w = if rng.chance(1, 2) { W::B } else { W::W };
+            let memop = if rng.chance(1, 2) { Loc::Label(w, if w == W::B { "vbe" } else { "vwe" }.into()) } else { Loc::Mem(w, rand_mem(rng)) };
+            let reg = if w == W::B { Loc::R8(rand_r8(rng)) } else { Loc::R16(rand_r16(rng)) };
+            return if rng.chance(1, 2) { Ins::Xchg(memop, reg) } else { Ins::Xchg(reg, memop) };
+        }
+        let m = if rng.chance(1, 4) {
+            // label operands
+            let w = if KINDS[k].ends_with('8') { W::B } else { W::W };
+            let name = if w == W::B { "vbe" } else { "vwe" };
+            return match KINDS[k] {
+                "load8" | "load16" => Ins::Mov(if w == W::B { Loc::R8(rand_r8(rng)) } else { Loc::R16(rand_r16(rng)) }, Src::Loc(Loc::Label(w, name.into()))),
+                "store8" | "store16" => Ins::Mov(Loc::Label(w, name.into()), Src::Loc(if w == W::B { Loc::R8(rand_r8(rng)) } else { Loc::R16(rand_r16(rng)) })),
+                "store-imm8" | "store-imm16" => Ins::Mov(Loc::Label(w, name.into()), Src::Imm(if w == W::B { rng.u16() & 0xFF } else { rng.u16() })),
+                "rmw-add8" => Ins::Alu2(Alu2::Add, Loc::Label(W::B, "vbe".into()), Src::Loc(Loc::R8(rand_r8(rng)))),
+                "rmw-not16" => Ins::Un(Un::Not, Loc::Label(W::W, "vwe".into())),
+                "rmw-inc8" => Ins::Un(Un::Inc, Loc::Label(W::B, "vbe".into())),
+                _ => Ins::Sh(Sh::Shl, Loc::Label(W::W, "vwe".into()), if rng.chance(1, 2) { Cnt::CL } else { Cnt::Imm(1) }),
+            };
+        } else {
+            rand_mem(rng)
+        };
+        make(k, m, rng)
+    });
     run_labels(rep, if t { 200_000 } else { 4000 }, false, rep.seed ^ 0x41);
     rep.floor("operand-form evaluations", rep.evals(), 100_000);
 }
